@@ -14,7 +14,9 @@ import shutil
 import tempfile
 
 DATASETS = {'a': ['x1', 'x2'], 'b': ['y1'], 'c': ['x1', 'z1'], 'e': []}
-ALIASES = {'ab': ['a', 'b'], 'ba': ['b', 'a'], 'ac': ['a', 'c'], 'az': ['a', 'zz'], 'be': ['b', 'e'], 'ee': ['e']}
+ALIASES = {'ab': ['a', 'b'], 'ba': ['b', 'a'], 'ac': ['a', 'c'], 'az': ['a', 'zz'], 'be': ['b', 'e'], 'ee': ['e'],
+           # three members: ids shared by members that are NOT neighbours, a member listed twice with another in between
+           'abc': ['a', 'b', 'c'], 'aba': ['a', 'b', 'a'], 'bea': ['b', 'e', 'a']}
 
 
 def _example(ds, i):
@@ -124,7 +126,7 @@ def search(tier='quick'):
                                 if r in first and first[r] is not ds:
                                     _fail(fails, sc, 'repeated request served from the shared dataset: %r' % r, 'a new dataset', 'the same object')
                                 first[r] = ds
-                                if ob[0] == 'v' and tuple(ds.keys()) != tuple(k for k, _ in ex[1]):
+                                if ob[0] == 'v' and ex[0] == 'v' and tuple(ds.keys()) != tuple(k for k, _ in ex[1]):
                                     _fail(fails, sc, 'keys(%r)' % r, ds.keys(), [k for k, _ in ex[1]])
                             if parts != pristine:
                                 _fail(fails, sc, 'source description unchanged after get_dataset(%r)' % (r,), parts, pristine)
